@@ -114,8 +114,8 @@ def unhex(s):
 
 
 def two(n):
-    """two decimal digits"""
-    return str(n // 10) + str(n % 10)
+    """two decimal digits of 0 <= n <= 99"""
+    return chr_digit(n // 10) + chr_digit(n % 10)
 
 
 def hhmmss(sec):
@@ -274,3 +274,88 @@ def next_run_spec(start, days, now_weekday, now_minute):
     if best_delta == 1:
         return "Due tomorrow at " + start
     return "Due next " + DAY_TITLE[best.name] + " at " + start
+
+
+# ------------------------------------------------------------------------------------- C08 reference decoders
+@primitive
+def chr_digit(d):
+    """the decimal digit character of 0 <= d <= 9"""
+    return "0123456789"[d]
+
+
+def le16v(b):
+    return b[0] + 256 * b[1]
+
+
+def le32v(b):
+    return b[0] + 256 * b[1] + 65536 * b[2] + 16777216 * b[3]
+
+
+def ref_login(r):
+    """a login reply yields the four session bytes at offset 8 (as hex text)"""
+    return hexs(r[8:12])
+
+
+def wf_state1(r):
+    return len(r) >= 101 and r[75] <= 1 and le32v(r[89:93]) < 86400 and le32v(r[93:97]) < 86400 and le32v(r[97:101]) < 86400
+
+
+def ref_state1(r, State):
+    """type-1 state reply: state r[75], watts LE16 r[77:79], time left LE32 r[89:93], time on LE32 r[93:97],
+    auto shutdown LE32 r[97:101]"""
+    watts = le16v(r[77:79])
+    return {"state": State["ON"] if r[75] == 1 else State["OFF"],
+            "power_consumption": watts,
+            "electric_current": amps_of(watts),
+            "time_left": hhmmss(le32v(r[89:93])),
+            "time_on": hhmmss(le32v(r[93:97])),
+            "auto_shutdown": hhmmss(le32v(r[97:101])),
+            "unparsed_response": r}
+
+
+def wf_shutter(r):
+    return len(r) >= 80 and ((r[78] == 0 and r[79] == 0) or (r[78] == 1 and r[79] == 0) or (r[78] == 0 and r[79] == 1))
+
+
+def ref_shutter(r, Direction):
+    """shutter state reply: position r[76], direction r[78:80] (0000 stop, 0100 up, 0001 down)"""
+    if r[78] == 1:
+        d = Direction["SHUTTER_UP"]
+    elif r[79] == 1:
+        d = Direction["SHUTTER_DOWN"]
+    else:
+        d = Direction["SHUTTER_STOP"]
+    return {"position": r[76], "direction": d, "unparsed_response": r}
+
+
+MODE_BY_CODE = {1: "AUTO", 2: "DRY", 3: "FAN", 4: "COOL", 5: "HEAT"}
+FAN_BY_CODE = {0: "AUTO", 1: "LOW", 2: "MEDIUM", 3: "HIGH"}
+
+
+def wf_thermostat(r, idlen):
+    """well-formed thermostat reply whose remote id has idlen ASCII characters (no NUL) and is zero padded to 8 bytes"""
+    if not (len(r) >= 92 and r[78] <= 1 and 1 <= r[79] <= 5 and r[81] // 16 <= 3 and r[81] % 16 <= 1):
+        return False
+    for i in range(8):
+        if i < idlen:
+            if not (1 <= r[84 + i] < 128):
+                return False
+        elif r[84 + i] != 0:
+            return False
+    return True
+
+
+def ref_thermostat(r, idlen, State, Mode, Fan, Swing):
+    """thermostat reply: temperature LE16 r[76:78] in tenths, power r[78], mode r[79], target r[80],
+    fan = high nibble of r[81], swing = low nibble, remote id r[84:92] NUL-stripped ASCII"""
+    rid = ""
+    for i in range(idlen):
+        rid = rid + chr(r[84 + i])
+    return {"state": State["ON"] if r[78] == 1 else State["OFF"],
+            "mode": Mode[MODE_BY_CODE[r[79]]],
+            "fan_level": Fan[FAN_BY_CODE[r[81] // 16]],
+            "swing": Swing["ON"] if r[81] % 16 == 1 else Swing["OFF"],
+            "temperature": tenths(le16v(r[76:78])),
+            "target_temperature": r[80],
+            "remote_id": rid,
+            "unparsed_response": r}
